@@ -525,7 +525,7 @@ func init() {
 			"oracle: after the delete is answered, lookup (registry, RTSP DESCRIBE, API) never returns a closed stream, listings and counters equal the set of live registered streams, the deleted publisher's connection is closed. " +
 			"distinct = event-log hash; non-trivial = at least one pre-emption",
 		Assumptions:    []string{"counts are compared at quiescent moments"},
-		RequiredProbes: []string{"c05.api-delete"},
+		RequiredProbes: []string{"c05.api-delete", "c05.retired-publisher-leaves"},
 	})
 }
 
@@ -543,7 +543,7 @@ func buildC05API(tier string) sim.Scenario {
 		path := []string{"/live/p", "/Live/P", "/cam/door/1"}[tp.Choose(3)]
 		canon := strings.ToLower(path)
 		base := "rtsp://10.9.0.1:554" + path
-		publish := func(name string) *rtspClient {
+		publish := func(name string, base string) *rtspClient {
 			cl := sw.rtspConnect(name, 1<<20)
 			for _, r := range []struct {
 				m, u string
@@ -598,18 +598,32 @@ func buildC05API(tier string) sim.Scenario {
 				}
 			}
 		}
-		a := publish("pubA")
+		a := publish("pubA", base)
 		if a == nil {
 			return
 		}
 		sendFrames(a, 3)
 		var bcl *rtspClient
 		if tp.Bool() {
-			bcl = publish("pubB") // replaces A on the same path
+			bcl = publish("pubB", "rtsp://10.9.0.1:554"+[]string{path, strings.ToUpper(path), "/." + path}[tp.Choose(3)]) // replaces A on the same path, possibly spelled differently
 			if bcl == nil {
 				return
 			}
 			sendFrames(bcl, 2)
+			if tp.Bool() { // the retired publisher goes away: that must not touch its successor
+				w.Probe("c05.retired-publisher-leaves")
+				succ := media.Get(path)
+				a.c.Close()
+				w.Sleep(time.Second)
+				if g := media.Get(path); g == nil || g != succ || g.VerifStatus() != media.StreamOK {
+					w.Fail("C05/successor-removed", "publisher A was replaced on %s by publisher B; when A disconnected, lookup of %s no longer returns B's live stream (registered=%v same=%v)", canon, path, g != nil, g == succ)
+					return
+				}
+				if err := sendFrames(bcl, 2); err != nil || bcl.c.PeerClosed() {
+					w.Fail("C05/successor-removed", "publisher A was replaced on %s by publisher B; when A disconnected, B's connection was closed (%v)", canon, err)
+					return
+				}
+			}
 		}
 		nPlayers := tp.Choose(3)
 		var players []*rtspClient
